@@ -26,6 +26,43 @@ def loop_body(func, header_contains, occurrence=0):
     if len(hits) <= occurrence:
         raise HarnessError(f"harness out of date: no loop with header containing {header_contains!r} in {func.__qualname__}")
     node = hits[occurrence]
+    # assignments that precede the loop (at function level or inside the loops enclosing it): if a refactoring hoists
+    # a computation out of the loop body, the body refers to names the harness does not know - they are then computed
+    # by the function's own assignments from the state the harness supplies (a name the harness supplies is never
+    # overwritten)
+    pre = []
+
+    def collect(stmts):
+        for st in stmts:
+            if st is node:
+                return True
+            if isinstance(st, ast.Assign) and all(isinstance(t, (ast.Name, ast.Tuple)) for t in st.targets):
+                pre.append(st)
+            for fld in ("body", "orelse"):
+                sub = getattr(st, fld, None)
+                if isinstance(sub, list) and not isinstance(st, (ast.FunctionDef, ast.ClassDef)):
+                    mark = len(pre)
+                    if collect(sub):
+                        return True
+                    if isinstance(st, (ast.If, ast.Try)):
+                        del pre[mark:]          # assignments of a branch that does not lead to the loop
+        return False
+
+    fdef = next(n for n in ast.walk(tree) if isinstance(n, ast.FunctionDef))
+    collect(fdef.body)
+
+    def _targets(st):
+        out = []
+        for t in st.targets:
+            out += [e.id for e in ast.walk(t) if isinstance(e, ast.Name)]
+        return out
+
+    def _needs(st):
+        return {e.id for e in ast.walk(st.value) if isinstance(e, ast.Name)}
+
+    pre_code = [(st, _targets(st), _needs(st),
+                 compile(ast.fix_missing_locations(ast.Module(body=[st], type_ignores=[])), "<prologue>", "exec"))
+                for st in pre]
     flag = ast.parse("__fell_through__ = True").body[0]
     wrapper = ast.While(test=ast.Constant(True), body=list(node.body) + [flag, ast.Break()], orelse=[])
     mod = ast.Module(body=[ast.parse("__fell_through__ = False").body[0], wrapper], type_ignores=[])
@@ -36,6 +73,16 @@ def loop_body(func, header_contains, occurrence=0):
     g = func.__globals__
 
     def step(ns):
+        import builtins
+        progress = True
+        while progress:
+            progress = False
+            for st, tg, need, c in pre_code:
+                if all(t in ns for t in tg):
+                    continue
+                if all((n in ns) or (n in g) or hasattr(builtins, n) for n in need):
+                    exec(c, g, ns)
+                    progress = True
         exec(code, g, ns)
         return "fallthrough" if ns.pop("__fell_through__") else "break"
 
